@@ -63,6 +63,10 @@ class CmsDriver:
             self.feats.add("clear")
             ctx.op("clear")
             return self.verify("after clear")
+        if kind == "reload":
+            return self._reload(op[1])
+        if kind == "join":
+            return self._join(op[1])
         k = self.pool[op[1] % len(self.pool)]
         if kind == "remove" and (self.cls == "hh" or self.true[k] <= 0):
             kind, op = "add", ["add", op[1], 1 + op[2] % 3]
@@ -96,6 +100,48 @@ class CmsDriver:
             c = ctx.call(self.noexc, o.check, k)
             ctx.check(self._o("retval"), r == c, lambda: f"{kind}({k!r},{n}) returned {r} but check says {c}")
         self.verify(f"after {kind}({k!r},{n})")
+
+    def _ctor(self):
+        from probables import CountMinSketch, HeavyHitters, StreamThreshold
+        return {"cms": CountMinSketch, "hh": HeavyHitters, "st": StreamThreshold}[self.cls]
+
+    def _reload(self, ch):
+        ctx, o = self.ctx, self.obj
+        K = self._ctor()
+        extra = {"hh": {"num_hitters": self.case["hitters"]}, "st": {"threshold": self.case["threshold"]}}.get(self.cls, {})
+        if ch % 2 == 0:
+            new = ctx.call(self.noexc, K.frombytes, bytes(o), hash_function=self.hf, **extra)
+        else:
+            import os
+            p = os.path.join(ctx.tmpdir(), "s.cms")
+            ctx.call(self.noexc, o.export, p)
+            new = ctx.call(self.noexc, K, filepath=p, hash_function=self.hf, **extra)
+        self.obj = new
+        self.last.clear()  # tracking tables are not stored in the format
+        self.feats.add("reload")
+        ctx.op("reload", ch % 2)
+        self.verify("after reload")
+
+    def _join(self, adds):
+        from probables import CountMinSketch
+        ctx, o = self.ctx, self.obj
+        if self.cls != "cms":
+            return
+        second = CountMinSketch(width=self.w, depth=self.d, hash_function=self.hf)
+        tot = 0
+        for ki, n in adds:
+            if self.total + tot + n >= 2 ** 31 - 1:
+                continue
+            k = self.pool[ki % len(self.pool)]
+            second.add(k, n)
+            self.true[k] += n
+            self.ever.add(k)
+            tot += n
+        ctx.call(self.noexc, o.join, second)
+        self.total += tot
+        self.feats.add("join")
+        ctx.op("join", adds)
+        self.verify("after join")
 
     def verify(self, what):
         ctx, o = self.ctx, self.obj
@@ -172,7 +218,7 @@ class CmsDriver:
         self.ctx.feat("d=%d" % min(self.d, 6))
 
 
-def case_strategy(tier, classes=("cms",), allow_clear=False, max_ops=40, small=False):
+def case_strategy(tier, classes=("cms",), allow_clear=False, max_ops=40, small=False, extra_ops=False):
     from hypothesis import strategies as st
 
     from .. import gen
@@ -198,6 +244,9 @@ def case_strategy(tier, classes=("cms",), allow_clear=False, max_ops=40, small=F
                st.tuples(st.just("remove"), ki, st.integers(0, 1000))]
         if allow_clear:
             ops.append(st.tuples(st.just("clear")))
+        if extra_ops:
+            ops.append(st.tuples(st.just("reload"), st.integers(0, 1)))
+            ops.append(st.tuples(st.just("join"), st.lists(st.tuples(ki, st.integers(1, 5)), max_size=4)))
         c["ops"] = [list(o) for o in draw(st.lists(st.one_of(*ops), min_size=3, max_size=max_ops))]
         return c
 
